@@ -1,25 +1,12 @@
-(* C18: decidable classes of ComposeDot inputs.  [holes_safe] collects what the emitters write
-   between double quotes without escaping; F25 and F26 are the two kinds of such holes that
-   carry profile-derived text on the unchanged tree. *)
+(* C18: decidable side conditions on ComposeDot inputs.  Since the repair of F29 / F30 (FormatValue
+   results and the file / binary name in the node label are escaped) no profile-derived text is
+   written between double quotes verbatim; what remains are the caller's own attribute values
+   and the percentage oracle. *)
 From PV Require Export M_Dot S_Dot.
 Open Scope string_scope.
 Open Scope Z_scope.
 
 Definition tab_safe (t : list (Z * string)) : bool := forallb (fun e => qsafe (snd e)) t.
-
-(* F25: FormatValue results are written verbatim (labels and tooltips of nodes, nodelets and
-   edges); report.formatValue appends the profile's sample unit *)
-Definition in_F25 (g : dgraph) : bool := negb (tab_safe (dg_fv g)).
-
-(* F26: multilinePrintableName escapes the function name only; the file (base name) and the
-   bracketed binary name reach the node label as they are *)
-Definition uses_formatter (n : dnode) : bool :=
-  match dn_attrs n with Some a => match na_fmt a with Some _ => true | None => false end | None => false end.
-Definition label_tail (i : ninfo) : list string :=
-  name_tail (ml_name (ni_short i)) (ml_file (ni_file i)) (ni_obj i) (ni_line i) (ni_col i).
-Definition node_tail_safe (n : dnode) : bool :=
-  uses_formatter n || forallb qsafe (label_tail (dn_info n)).
-Definition in_F26 (g : dgraph) : bool := negb (forallb node_tail_safe (dg_nodes g)).
 
 (* caller-supplied attribute values (not profile-derived) *)
 Definition ident_ok (s : string) : bool :=
@@ -37,8 +24,7 @@ Definition attrs_safe (n : dnode) : bool :=
   end.
 
 Definition holes_safe (g : dgraph) : bool :=
-  tab_safe (dg_fv g) && tab_safe (dg_pct g) && forallb node_tail_safe (dg_nodes g) &&
-  forallb attrs_safe (dg_nodes g).
+  tab_safe (dg_pct g) && forallb attrs_safe (dg_nodes g).
 
 (* every edge endpoint is one of the graph's nodes (what graph.New guarantees since F21) *)
 Definition edges_within_nodes (g : dgraph) : bool :=
